@@ -36,6 +36,31 @@ Proof. intros c i. unfold stop_loop. now rewrite late_join_false. Qed.
 Lemma gen_accepts : execute_failed enqueue_result = false /\ execute_failed enqueue_local_result = false.
 Proof. split; reflexivity. Qed.
 
+Lemma gen_steal_guard : guard_on = true. Proof. reflexivity. Qed.
+Lemma gen_steal_first : steal_stops_at_first 1 = true /\ steal_stops_at_first 0 = false. Proof. split; reflexivity. Qed.
+Lemma advance_true : forall rest, advance rest true = None.
+Proof. induction rest as [|b r IH]; cbn; auto. Qed.
+Lemma no_steal_eq : no_steal = WTake. Proof. reflexivity. Qed.
+Lemma after_success_eq : forall rest it, after_success rest it = dispatch it.
+Proof. intros. unfold after_success. now rewrite advance_true. Qed.
+Lemma after_fail_cases : forall rest cur, after_fail rest cur = WTake \/ exists r b, after_fail rest cur = WSteal r b.
+Proof.
+  intros rest cur. unfold after_fail. destruct cur; [|eauto]. destruct (advance rest false) as [[r b]|]; eauto.
+Qed.
+Lemma scan_start_cases : forall c, scan_start c = WTake \/ exists r b, scan_start c = WSteal r b.
+Proof. intros c. unfold scan_start. destruct (advance (blocks c) false) as [[r b]|]; eauto. Qed.
+Ltac steal_cases :=
+  repeat match goal with
+         | |- context [after_fail ?r ?l] =>
+           let H := fresh "Haf" in destruct (after_fail_cases r l) as [H|(? & ? & H)]; rewrite H in *
+         | |- context [scan_start ?c] =>
+           let H := fresh "Hsc" in destruct (scan_start_cases c) as [H|(? & ? & H)]; rewrite H in *
+         | H0 : context [after_fail ?r ?l] |- _ =>
+           let H := fresh "Haf" in destruct (after_fail_cases r l) as [H|(? & ? & H)]; rewrite H in *
+         | H0 : context [scan_start ?c] |- _ =>
+           let H := fresh "Hsc" in destruct (scan_start_cases c) as [H|(? & ? & H)]; rewrite H in *
+         end.
+
 Definition orders_ok : bool :=
   match sites_start, sites_stop, sites_keep_balance, sites_newthread_invoke, sites_newthread_join with
   | [(KLoad, a1, _); (KStore, a2, _)], [(KLoad, b1, _); (KStore, b2, _)], [(KLoad, c1, _)],
@@ -82,7 +107,8 @@ Ltac destr_step H :=
   repeat match type of H with
          | context [match ?x with _ => _ end] => let E := fresh "E" in destruct x eqn:E; try discriminate H
          end;
-  try discriminate H; inversion H; subst; clear H; rewrite ?early_join_eq in *.
+  try discriminate H; inversion H; subst; clear H; rewrite ?early_join_eq, ?after_success_eq in *;
+  try match goal with Hg : guard_on = false |- _ => rewrite gen_steal_guard in Hg; discriminate Hg end.
 
 (* every step changes exactly the stepping thread, keeps its role, the thread layout and the queue count *)
 Lemma step_shape : forall c s t s', step c s t = Some s' ->
@@ -216,7 +242,7 @@ Definition phase1 (p : pc) : bool := match p with EStopPush _ | EStopFill _ _ | 
 Definition role_pc_ok (r : role) (p : pc) : bool :=
   match r, p with
   | RExt, (EIdle | EFill _ _ | EStopStore | EStopJoinBal | EStopJoinBalLate | EStopPush _ | EStopFill _ _ | EStopJoin _) => true
-  | RWorker _, (WLoop | WSteal _ | WTake | WPop _ | WBegin _ | WRun _ _ | WGTake _ _ _ | WFill _ _ _ _ | WExit) => true
+  | RWorker _, (WLoop | WSteal _ _ | WStealHeld _ _ _ | WTake | WPop _ | WBegin _ | WRun _ _ | WGTake _ _ _ | WFill _ _ _ _ | WExit) => true
   | RBal, (BCheck | BSweep _ | BTake _ _ | BFill _ _ _ | BExit) => true
   | _, _ => false
   end.
@@ -241,7 +267,7 @@ Proof.
   - intros t th H. apply nth_error_In, init_threads_in in H. destruct H as [[-> ->]|[(w & -> & ->)|[-> ->]]]; reflexivity.
   - intros s t s' _ IH Hs t0 th0 Hn. destr_step Hs; simp_st; split_thread Hn; eauto; cbn;
       repeat match goal with H : trole _ = _ |- _ => rewrite H end; auto using dispatch_worker_pc;
-      rewrite ?stop_loop_eq; unfold after_steal, after_sweep;
+      rewrite ?stop_loop_eq; steal_cases; unfold after_sweep;
       repeat match goal with |- context [if ?b then _ else _] => destruct b end; auto.
 Qed.
 
@@ -293,7 +319,7 @@ Proof.
     destruct H as [[_ E]|[(w & _ & E)|[_ E]]]; rewrite E in Hp; discriminate.
   - intros s t s' _ [IH1 IH2] Hs.
     destr_step Hs; simp_st; (split; [intros tx thx Hn Hp; split_thread Hn; eauto; cbn in Hp; rewrite ?stop_pc_dispatch in Hp;
-      unfold after_steal, after_sweep in *; repeat match type of Hp with context [if ?b then _ else _] => destruct b end;
+      steal_cases; unfold after_sweep in *; repeat match type of Hp with context [if ?b then _ else _] => destruct b end;
       try discriminate; try reflexivity; by_old IH1 | ]);
       try (intros Hret; first [reflexivity | now auto | by_old IH1]).
 Qed.
@@ -334,7 +360,7 @@ Proof.
     cbn [tpc trole goto next_op];
     repeat match goal with H : tpc _ = _ |- _ => rewrite H end;
     rewrite ?phase1_dispatch, ?nostop_app, ?nostop_fill, ?fun_not_stop, ?wake_not_stop, ?andb_true_r;
-    rewrite ?stop_loop_eq; unfold after_steal, after_sweep;
+    rewrite ?stop_loop_eq; steal_cases; unfold after_sweep;
     repeat match goal with |- context [if ?b then _ else _] => destruct b eqn:? end;
     cbn [phase1];
     repeat split; try discriminate; try (intros; discriminate); auto; try tauto.
@@ -497,7 +523,7 @@ Qed.
 
 (* ======================================================================================== *)
 (* second case analysis of `step`: what happens to the global queue                           *)
-Definition quiet (p : pc) : bool := match p with WSteal _ | WTake | WPop _ | WExit => true | _ => false end.
+Definition quiet (p : pc) : bool := match p with WSteal _ _ | WTake | WPop _ | WExit => true | _ => false end.
 Lemma dispatch_fun : forall id, dispatch (IFun id) = WBegin id. Proof. reflexivity. Qed.
 Lemma dispatch_exit : forall it, dispatch it = WExit -> is_stop it = true.
 Proof.
@@ -524,7 +550,7 @@ Definition gq_rel (g g' : queue) (o : gop) : Prop :=
 Ltac kill_gen :=
   try (rewrite (proj2 gen_local_first) in *; discriminate); try (rewrite (proj2 gen_pop_needed) in *; discriminate).
 Ltac clean_hyps :=
-  rewrite ?stop_loop_eq in *; unfold after_steal, after_sweep in *;
+  rewrite ?stop_loop_eq in *; steal_cases; unfold after_sweep in *;
   repeat match goal with H : context [if ?b then _ else _] |- _ => destruct b eqn:? end;
   try discriminate;
   repeat match goal with
@@ -628,7 +654,7 @@ Proof.
     repeat match goal with it : item |- _ => destruct it end;
     cbn [tpc trole goto next_op note_accept acc_before acc_local finished stop_called];
     repeat match goal with H : tpc _ = _ |- _ => rewrite H end;
-    rewrite ?dispatch_fun; rewrite ?stop_loop_eq; unfold app_slot, after_steal, after_sweep;
+    rewrite ?dispatch_fun; rewrite ?stop_loop_eq; steal_cases; unfold app_slot, after_sweep;
     repeat match goal with |- context [if ?b then _ else _] => destruct b eqn:? end;
     rewrite ?pend_dispatch, ?held_dispatch_mark;
     repeat split; intros;
@@ -1203,7 +1229,7 @@ Lemma step_tokens : forall c s t s',
    (forall id, In id (run_id (tpc th)) -> In id (run_id (tpc th')) \/ In id (finished s')).
 Proof.
   intros c s t s' Hw H. destr_step H; kill_gen; simp_st;
-    rewrite ?stop_loop_eq; unfold after_steal, after_sweep;
+    rewrite ?stop_loop_eq; steal_cases; unfold after_sweep;
     repeat match goal with |- context [if ?b then _ else _] => destruct b eqn:? end;
     eexists; eexists;
     (split; [reflexivity|]; split; [reflexivity|]);
@@ -1408,7 +1434,7 @@ Lemma step_acc : forall c s t s', step c s t = Some s' ->
     (forall k p id, tpc th' = BFill k p (IFun id) -> tpc th = BTake k (IFun id)).
 Proof.
   intros c s t s' H. destr_step H; kill_gen; simp_st;
-    rewrite ?stop_loop_eq; unfold after_steal, after_sweep;
+    rewrite ?stop_loop_eq; steal_cases; unfold after_sweep;
     repeat match goal with |- context [if ?b then _ else _] => destruct b eqn:? end;
     eexists; eexists;
     (first [ exists GSame; eexists; split; [reflexivity|]; split; [reflexivity|]; split; [reflexivity|]
@@ -1583,7 +1609,7 @@ Proof. intros c progs s id Hr Hin. rewrite (ex_none_refused _ _ _ Hr) in Hin. de
 
 (* non-vacuity: one worker, local capacity 1, task 0 spawns task 1; submit 0 then stop() *)
 Definition demo_cfg : config :=
-  {| nworkers := 1; gcap := 1; lcap := 1; stealing := 0; interval := -1; bodies := [[1]; []] |}.
+  {| nworkers := 1; gcap := 1; lcap := 1; stealing := 0; interval := -1; bodies := [[1]; []]; blocks := [[0]] |}.
 Definition demo_progs : list (list op) := [[OSubmit 0; OStop]].
 Definition demo_sched : list nat := concat (repeat [0; 1] 30).
 Lemma ex_demo : let s := run st (step demo_cfg) (init demo_cfg demo_progs) demo_sched in
